@@ -293,7 +293,9 @@ def branches (d : Doc2 Json) (excl : List String) : List String :=
     (if docBody d then ["frag.docBody"] else []) ++ (if docBodyBack d then ["frag.docBodyBack"] else []) ++
     (if docInputs d then ["frag.docInputs"] else []) ++ (if docInputs d && !docBody d then ["frag.docInputs.only"] else []) ++
     (if docBody d && !docSimple d then ["frag.docBody.only"] else []) ++
-    (if docBodyBack d && !docSimpleBack d then ["frag.docBodyBack.only"] else [])
+    (if docBodyBack d && !docSimpleBack d then ["frag.docBodyBack.only"] else []) ++
+    (if docInputsBack d then ["frag.docInputsBack"] else []) ++
+    (if docInputsBack d && !docBodyBack d then ["frag.docInputsBack.only"] else [])
   raw.eraseDups
 
 def handle (j : Json) : Json :=
